@@ -162,6 +162,106 @@ def gen_groups(rng, n, npix=5):
     return groups
 
 
+# ------------------------------------------------------------------ call histories
+# The property quantifies over operands; every kernel must therefore be a function of its operands only.  A history
+# is a sequence of calls made in ONE process in which the same NUMBERS come back with other units (UB dimensionless /
+# 1/angstrom / 1/nm; wavelength angstrom / nm; beams m / mm; Q 1/angstrom / 1/nm), dtypes (float64 / float32 / int64),
+# shapes (scalar / per-pixel operands, 2 or 3 pixels) and storage (rotation3 / 3x3 matrix).  Consecutive steps differ
+# in ONE axis (sometimes two), some steps repeat an earlier step exactly, and two histories may be interleaved:
+# state kept between calls under a key that misses an axis (a memoised inverse, a per-dtype table) then answers
+# with a stale value, which the property statement evaluated on EVERY step exposes.
+BUNITS = ['dimensionless', '1/angstrom', '1/nm']
+QUNITS = ['1/angstrom', '1/nm']
+HIST_AXES = [('B_unit', 5), ('w_unit', 4), ('w_dtype', 3), ('w_dim', 1), ('bi_unit', 1), ('bf_unit', 1), ('npix', 1),
+             ('R_kind', 1), ('R_dim', 1), ('U_kind', 1), ('Q_unit', 3), ('Q_src', 2)]
+HIST_ID0 = 1000
+
+
+def f32_exact(x):
+    import struct
+    return struct.unpack('f', struct.pack('f', x))[0]
+
+
+def rot_of(qs, kind, dim):
+    qs = qs if dim else qs[:1]
+    if kind == 'quat':
+        return {'kind': 'quat', 'values': [[hexf(float(c)) for c in qt] for qt in qs], 'dim': dim}
+    return {'kind': 'matrix', 'values': [[hexf(float(c)) for c in quat_matrix(qt)] for qt in qs], 'dim': dim}
+
+
+def hist_base(rng, npix=3):
+    u = rand_unit(rng)
+    B, kap = b_matrix(rng)
+    if rng.random() < 0.5:      # numbers every numeric dtype stores exactly
+        wl, dtypes = [rng.randint(1, 10) for _ in range(npix)], ['float64', 'float32', 'int64']
+    else:                       # numbers float32 and float64 store exactly; n angstrom and n nm both within 0.01..100 angstrom
+        wl, dtypes = [f32_exact(loguniform(rng, 0.01, 10)) for _ in range(npix)], ['float64', 'float32']
+    return {'bi': [c * loguniform(rng, 1e-3, 1e3) for c in u], 'bfs': [scattered(rng, u) for _ in range(npix)],
+            'wl': wl, 'dtypes': dtypes, 'Rq': [rand_quat(rng) for _ in range(npix)], 'Uq': [rand_quat(rng)],
+            'B': B, 'kap': kap, 'Qnum': [[rng.uniform(-10, 10) for _ in range(3)] for _ in range(npix)], 'npix': npix}
+
+
+def hist_choices(base):
+    return {'B_unit': BUNITS, 'w_unit': [w for w, _ in WUNITS], 'w_dtype': base['dtypes'], 'w_dim': [None, 'p'],
+            'bi_unit': LUNITS, 'bf_unit': LUNITS, 'npix': [base['npix'] - 1, base['npix']], 'R_kind': ['quat', 'matrix'],
+            'R_dim': [None, 'p'], 'U_kind': ['quat', 'matrix'], 'Q_unit': QUNITS, 'Q_src': ['computed', 'explicit']}
+
+
+def hist_group(base, cfg, gid, hid, step, changed):
+    n = cfg['npix']
+    wl = base['wl'][:n] if cfg['w_dim'] else base['wl'][:1]
+    wvals = [int(v) for v in wl] if cfg['w_dtype'] == 'int64' else [hexf(float(v)) for v in wl]
+    g = {'id': gid, 'hist': hid, 'step': step, 'config': dict(cfg), 'changed': changed,
+         'wavelength': {'values': wvals, 'unit': cfg['w_unit'], 'dtype': cfg['w_dtype'], 'dim': cfg['w_dim']},
+         'incident_beam': vop([base['bi']], cfg['bi_unit'], None),
+         'scattered_beam': vop(base['bfs'][:n], cfg['bf_unit'], 'p'),
+         'R': rot_of(base['Rq'][:n], cfg['R_kind'], cfg['R_dim']), 'U': rot_of(base['Uq'], cfg['U_kind'], None),
+         'B': {'values': [hexf(c) for c in base['B']], 'unit': cfg['B_unit']}, 'kappa_target': base['kap']}
+    if cfg['Q_src'] == 'explicit':
+        g['Q'] = vop(base['Qnum'][:n], cfg['Q_unit'], 'p')
+    return g
+
+
+def gen_histories(rng, n_hist, n_steps):
+    """-> groups in execution order (ids from HIST_ID0), {history id: [groups of that history in order]}"""
+    hists = []
+    gid = HIST_ID0
+    for hid in range(n_hist):
+        base = hist_base(rng)
+        choices = hist_choices(base)
+        cfg = {a: rng.choice(c) for a, c in choices.items()}
+        cfgs = [(dict(cfg), ['start'])]
+        while len(cfgs) < n_steps:
+            x = rng.random()
+            if x < 0.15 and len(cfgs) >= 2:          # an earlier call again, exactly
+                cfg = dict(rng.choice(cfgs[:-1])[0])
+                cfgs.append((dict(cfg), ['repeat-of-earlier-step']))
+                continue
+            axes = [(a, w) for a, w in HIST_AXES if len(choices[a]) > 1 and not (a == 'Q_unit' and cfg['Q_src'] == 'computed')]
+            ch = []
+            for _ in range(1 if x < 0.85 else 2):
+                a = rng.choices([a for a, _ in axes], weights=[w for _, w in axes])[0]
+                if a not in ch:
+                    cfg[a] = rng.choice([c for c in choices[a] if c != cfg[a]])
+                    ch.append(a)
+            cfgs.append((dict(cfg), ch))
+        seq = []
+        for step, (c, ch) in enumerate(cfgs):
+            seq.append(hist_group(base, c, gid, hid, step, ch))
+            gid += 1
+        hists.append(seq)
+    order = []
+    for i in range(0, len(hists), 2):
+        pair = hists[i:i + 2]
+        if len(pair) == 2 and rng.random() < 0.5:    # two histories interleaved call by call
+            for a, b in zip(*pair):
+                order += [a, b]
+        else:
+            for s in pair:
+                order += s
+    return order, {h[0]['hist']: h for h in hists}
+
+
 def fr(pair):
     return Fraction(int(pair[0]), int(pair[1]))
 
@@ -189,14 +289,18 @@ def ok(r, key):
     return key in r and 'error' not in r[key]
 
 
-def cases_of(g, r):
-    """Coq cases + descriptions for one executed group"""
+def units_term(us):
+    return '[' + '; '.join(f'({q(u["mult"])}, {dims_term(u["dims"])})' for u in us) + ']'
+
+
+def cases_of(g, r, pixels=None, norm=True):
+    """Coq cases + descriptions for one executed group (all pixels, or the given ones)"""
     out = []
     ops = r['operands']
     npix = len(ops['scattered_beam']['values'])
     lam = ops['wavelength']
     f64 = lam['dtype'] == 'float64'
-    for k in range(npix):
+    for k in (range(npix) if pixels is None else [k_ for k_ in pixels if k_ < npix]):
         base = {'group': g['id'], 'pixel': k,
                 'wavelength': kcorr.describe(lam, k), 'incident_beam': [float(fr(c)) for c in pick(ops['incident_beam'], k)],
                 'incident_unit': ops['incident_beam']['unit']['name'],
@@ -218,7 +322,7 @@ def cases_of(g, r):
             if ot:
                 out.append((f'(KQvec {lt} {bi} {bf} {ot} (2 # 1000000000000000))',
                             dict(base, kernel='Q_vec_from_Q_elements', impl=kcorr.fmt(r['Qvec']['values'][k]))))
-        if ok(r, 'Qvec') and ok(r, 'Qscalar') and ok(r, 'two_theta'):
+        if norm and ok(r, 'Qvec') and ok(r, 'Qscalar') and ok(r, 'two_theta'):
             qv, qs, tt = r['Qvec']['values'][k], r['Qscalar']['values'][k], r['two_theta']['values'][k]
             if not any(isinstance(c, str) for c in list(qv) + [qs, tt]):
                 m = fr(r['Qvec']['unit']['mult'])
@@ -243,8 +347,10 @@ def cases_of(g, r):
                 rj = r['rejoined']['values'][k]
                 if not any(isinstance(c, str) for c in list(hv) + he + list(rj)):
                     lst = lambda v: '[' + '; '.join(q(c) for c in v) + ']'  # noqa: E731
-                    out.append((f'(KSplit {lst(hv)} {lst(he)} {lst(rj)})',
-                                dict(base, kernel='hkl_elements_from_hkl_vec / Q_vec_from_Q_elements', impl={'hkl': kcorr.fmt(hv)})))
+                    us = [r['hkl']['unit']] + [r['hkl_el']['dict'][c]['unit'] for c in ('h', 'k', 'l')] + [r['rejoined']['unit']]
+                    out.append((f'(KSplit {lst(hv)} {lst(he)} {lst(rj)} {units_term(us)})',
+                                dict(base, kernel='hkl_elements_from_hkl_vec / Q_vec_from_Q_elements',
+                                     impl={'hkl': kcorr.fmt(hv), 'units': [u['name'] for u in us]})))
         elif 'hkl' in r:
             out.append((f'(KHkl {vin_term(ops["Q"] if "Q" in ops else r["Qvec"], k)} {min_term(ops["U"], 0)} {min_term(ops["B"], 0)} '
                         f'{min_term(ops["R"], k)} (OutErr "{r["hkl"]["error"]}") (64 # 1))',
@@ -289,27 +395,64 @@ def kappa_inf(a):
 PI_Q = Fraction(3141592653589793238462643383279502884197, 10 ** 39)
 
 
+def same_unit(a, b):
+    return a is not None and b is not None and fr(a['mult']) == fr(b['mult']) and list(a['dims']) == list(b['dims'])
+
+
+def dsum(*ds):
+    return [sum(c) for c in zip(*ds)]
+
+
 def statement_checks(ctx, groups, res, found):
-    """Q = (2 pi/lambda)(e_i - e_f); |Q| = scalar Q; 2 pi R UB hkl = Q to 64 kappa u; UB = U*B; split/join exact —
-    evaluated on the implementation's outputs with exact rational arithmetic (independent of the regenerated model)"""
+    """Q = (2 pi/lambda)(e_i - e_f) component-wise and as a vector, in the inverse of the wavelength's unit dimension;
+    |Q| = scalar Q; 2 pi R UB hkl = Q to 64 kappa u in value AND unit dimension; UB = U*B (numbers, multiplier, dimension);
+    split/join exact (numbers and units) — evaluated on the implementation's outputs with exact rational arithmetic
+    (independent of the regenerated model)"""
     for g, r in zip(groups, res['groups']):
         if 'operands' not in r:
             continue
         ops = r['operands']
         npix = len(ops['scattered_beam']['values'])
         lam = ops['wavelength']
+        where = {'group': g['id']}
+        if 'hist' in g:
+            where.update(history=g['hist'], step=g['step'], config=g['config'])
         j2 = r.get('join2d')
         if j2 is not None and (j2.get('error') or j2.get('n_mismatch')):
-            d = {'group': g['id'], 'kernel': 'Q_vec_from_Q_elements', 'components': 'Qx(a,b), Qy(b,a), Qz(a,b), shape ' + str(j2.get('shape')),
-                 'observed': j2}
+            d = dict(where, kernel='Q_vec_from_Q_elements', components='Qx(a,b), Qy(b,a), Qz(a,b), shape ' + str(j2.get('shape')),
+                     observed=j2)
             ctx.violation('join:2d-components-in-different-dim-order',
                           'Q_vec_from_Q_elements does not pair 2-d components by dimension label when one component is stored '
                           f'in the other dim order (reassembly is not lossless): {d}', {'case': d})
             found.append(d)
         for key in ('Qel', 'Qvec', 'UB', 'hkl', 'hkl_el', 'rejoined'):
             if key in r and 'error' in r[key]:
-                d = {'group': g['id'], 'kernel': key, 'error': r[key]['error'], 'text': r[key].get('error_text')}
+                d = dict(where, kernel=key, error=r[key]['error'], text=r[key].get('error_text'))
                 ctx.violation(f'{key}:raises-{r[key]["error"]}', f'{key} raises {r[key]["error"]} on valid operands: {d}', {'case': d, 'group': g})
+                found.append(d)
+        # ---- units (dimension; the multipliers enter the value comparisons below)
+        inv_lam = [-c for c in lam['unit']['dims']]
+        if ok(r, 'Qel'):
+            for c, x in r['Qel']['dict'].items():
+                if x.get('unit') is None or list(x['unit']['dims']) != inv_lam:
+                    d = dict(where, kernel='Q_elements_from_wavelength', component=c, unit=(x.get('unit') or {}).get('name'),
+                             wavelength_unit=lam['unit']['name'])
+                    ctx.violation('Qel:unit', f'{c} has unit {d["unit"]}, not the inverse of the wavelength\'s unit dimension: {d}', {'case': d, 'group': g})
+                    found.append(d)
+        if ok(r, 'Qvec') and (r['Qvec'].get('unit') is None or list(r['Qvec']['unit']['dims']) != inv_lam):
+            d = dict(where, kernel='Q_vec_from_Q_elements', unit=(r['Qvec'].get('unit') or {}).get('name'), wavelength_unit=lam['unit']['name'])
+            ctx.violation('Qvec:unit', f'Q_vec has unit {d["unit"]}, not the inverse of the wavelength\'s unit dimension: {d}', {'case': d, 'group': g})
+            found.append(d)
+        if ok(r, 'hkl'):
+            qsrc = ops['Q'] if 'Q' in ops else r.get('Qvec')
+            hu = r['hkl'].get('unit')
+            if qsrc is not None and qsrc.get('unit') is not None and (
+                    hu is None or dsum(ops['R']['unit']['dims'], ops['U']['unit']['dims'], ops['B']['unit']['dims'], hu['dims'])
+                    != list(qsrc['unit']['dims'])):
+                d = dict(where, kernel='hkl_vec_from_Q_vec', hkl_unit=(hu or {}).get('name'), Q_unit=qsrc['unit']['name'],
+                         R_unit=ops['R']['unit']['name'], U_unit=ops['U']['unit']['name'], B_unit=ops['B']['unit']['name'])
+                ctx.violation('hkl_vec_from_Q_vec:unit', f'unit(R) unit(U) unit(B) unit(hkl) is not the unit dimension of Q, so 2 pi R UB hkl = Q '
+                              f'cannot hold: {d}', {'case': d, 'group': g})
                 found.append(d)
         for k in range(npix):
             lam_si = float(fr(pick(lam, k)) * fr(lam['unit']['mult']))
@@ -325,17 +468,26 @@ def statement_checks(ctx, groups, res, found):
                 ni, nf = math.sqrt(sum(c * c for c in bi)), math.sqrt(sum(c * c for c in bf))
                 want = [kk * (a / ni - b / nf) for a, b in zip(bi, bf)]
                 if any(abs(x - y) > 1e-13 * kk for x, y in zip(got, want)):
-                    d = {'kernel': 'Q_vec', 'got_si': got, 'definition_si': want, 'wavelength_si': lam_si, 'incident_beam': bi, 'scattered_beam': bf}
-                    ctx.violation('Qvec:definition', f'Q vector {got} differs from (2 pi/lambda)(e_i - e_f) = {want}', {'case': d})
+                    d = dict(where, kernel='Q_vec', got_si=got, definition_si=want, wavelength_si=lam_si, incident_beam=bi, scattered_beam=bf)
+                    ctx.violation('Qvec:definition', f'Q vector {got} differs from (2 pi/lambda)(e_i - e_f) = {want}', {'case': d, 'group': g})
                     found.append(d)
+                if ok(r, 'Qel'):
+                    el = r['Qel']['dict']
+                    comp = [el[c]['values'][k] for c in ('Qx', 'Qy', 'Qz')]
+                    if [tuple(c) for c in comp] != [tuple(c) for c in qv] or not all(same_unit(el[c].get('unit'), r['Qvec'].get('unit')) for c in el):
+                        d = dict(where, kernel='Q_elements_from_wavelength / Q_vec_from_Q_elements', components=[kcorr.fmt(c) for c in comp],
+                                 component_units=[(el[c].get('unit') or {}).get('name') for c in ('Qx', 'Qy', 'Qz')],
+                                 joined=kcorr.fmt(qv), joined_unit=(r['Qvec'].get('unit') or {}).get('name'))
+                        ctx.violation('Qel-join:lossy', f'joining Qx, Qy, Qz changed the numbers or the unit: {d}', {'case': d, 'group': g})
+                        found.append(d)
                 if ok(r, 'Qscalar') and lam['dtype'] == 'float64':
                     qs = r['Qscalar']['values'][k]
                     if not isinstance(qs, str):
                         qs = float(fr(qs) * fr(r['Qscalar']['unit']['mult']))
                         nrm = math.sqrt(sum(c * c for c in got))
                         if abs(nrm - qs) > 1e-13 * 2 * kk:
-                            d = {'kernel': '|Q_vec| vs Q', 'norm_si': nrm, 'Q_si': qs, 'wavelength_si': lam_si, 'incident_beam': bi, 'scattered_beam': bf}
-                            ctx.violation('Qvec:norm-vs-scalar-Q', f'|Q_vec| = {nrm} but the scalar Q of the same beams is {qs}', {'case': d})
+                            d = dict(where, kernel='|Q_vec| vs Q', norm_si=nrm, Q_si=qs, wavelength_si=lam_si, incident_beam=bi, scattered_beam=bf)
+                            ctx.violation('Qvec:norm-vs-scalar-Q', f'|Q_vec| = {nrm} but the scalar Q of the same beams is {qs}', {'case': d, 'group': g})
                             found.append(d)
             if ok(r, 'hkl'):
                 hv = r['hkl']['values'][k]
@@ -352,25 +504,34 @@ def statement_checks(ctx, groups, res, found):
                 resid = [2 * PI_Q * sA * a - b for a, b in zip(mv(A, hq), qq)]
                 bound = 64 * kap * Fraction(U) * sum(abs(c) for c in qq)
                 if any(abs(c) > bound for c in resid):
-                    d = {'kernel': 'hkl_vec_from_Q_vec', 'residual': [float(c) for c in resid], 'bound': float(bound), 'kappa_inf': float(kap),
-                         'Q': [float(c) for c in qq], 'hkl': [float(c) for c in hq], 'R': [float(fr(c)) for c in pick(ops['R'], k)],
-                         'U': [float(fr(c)) for c in pick(ops['U'], 0)], 'B': [float(fr(c)) for c in pick(ops['B'], 0)]}
+                    d = dict(where, kernel='hkl_vec_from_Q_vec', residual=[float(c) for c in resid], bound=float(bound), kappa_inf=float(kap),
+                             Q=[float(c) for c in qq], hkl=[float(c) for c in hq], hkl_unit=r['hkl']['unit']['name'],
+                             Q_unit=qsrc['unit']['name'], B_unit=ops['B']['unit']['name'], R=[float(fr(c)) for c in pick(ops['R'], k)],
+                             U=[float(fr(c)) for c in pick(ops['U'], 0)], B=[float(fr(c)) for c in pick(ops['B'], 0)])
                     ctx.violation('hkl_vec_from_Q_vec:residual' + ('-kappa>=1e4' if kap >= 10000 else ''),
-                                  f'2 pi R UB hkl - Q = {d["residual"]} exceeds 64 kappa u |Q| = {d["bound"]} (kappa_inf = {float(kap):.3g})', {'case': d})
+                                  f'2 pi R UB hkl - Q = {d["residual"]} exceeds 64 kappa u |Q| = {d["bound"]} (kappa_inf = {float(kap):.3g})',
+                                  {'case': d, 'group': g})
                     found.append(d)
                 if ok(r, 'hkl_el') and ok(r, 'rejoined'):
                     he = [r['hkl_el']['dict'][c]['values'][k] for c in ('h', 'k', 'l')]
-                    if [tuple(c) for c in he] != [tuple(c) for c in hv] or [tuple(c) for c in r['rejoined']['values'][k]] != [tuple(c) for c in hv]:
-                        d = {'kernel': 'split/join', 'hkl': kcorr.fmt(hv), 'elements': [kcorr.fmt(c) for c in he], 'rejoined': kcorr.fmt(r['rejoined']['values'][k])}
-                        ctx.violation('split-join:lossy', f'splitting / joining changed the numbers: {d}', {'case': d})
+                    us = [r['hkl_el']['dict'][c].get('unit') for c in ('h', 'k', 'l')] + [r['rejoined'].get('unit')]
+                    if ([tuple(c) for c in he] != [tuple(c) for c in hv] or [tuple(c) for c in r['rejoined']['values'][k]] != [tuple(c) for c in hv]
+                            or not all(same_unit(u_, r['hkl'].get('unit')) for u_ in us)):
+                        d = dict(where, kernel='split/join', hkl=kcorr.fmt(hv), elements=[kcorr.fmt(c) for c in he],
+                                 rejoined=kcorr.fmt(r['rejoined']['values'][k]), hkl_unit=r['hkl']['unit']['name'],
+                                 units=[(u_ or {}).get('name') for u_ in us])
+                        ctx.violation('split-join:lossy', f'splitting / joining changed the numbers or the unit: {d}', {'case': d, 'group': g})
                         found.append(d)
         if ok(r, 'UB'):
-            want = mm(mat_entries(ops['U'], 0), mat_entries(ops['B'], 0))
-            got = [fr(c) for c in r['UB']['values'][0]]
+            sU, sB = fr(ops['U']['unit']['mult']), fr(ops['B']['unit']['mult'])
+            want = [c * sU * sB for c in mm(mat_entries(ops['U'], 0), mat_entries(ops['B'], 0))]
+            got = [fr(c) * fr(r['UB']['unit']['mult']) for c in r['UB']['values'][0]]
             sc_ = max(abs(c) for c in want) or 1
-            if any(abs(a - b) > Fraction(1, 10 ** 14) * sc_ for a, b in zip(got, want)):
-                d = {'kernel': 'ub_matrix_from_u_and_b', 'got': [float(c) for c in got], 'U*B': [float(c) for c in want]}
-                ctx.violation('UB:product', f'UB is not U*B: {d}', {'case': d})
+            if any(abs(a - b) > Fraction(1, 10 ** 14) * sc_ for a, b in zip(got, want)) or \
+                    list(r['UB']['unit']['dims']) != dsum(ops['U']['unit']['dims'], ops['B']['unit']['dims']):
+                d = dict(where, kernel='ub_matrix_from_u_and_b', got=[float(c) for c in got], UB_unit=r['UB']['unit']['name'],
+                         want=[float(c) for c in want], U_unit=ops['U']['unit']['name'], B_unit=ops['B']['unit']['name'])
+                ctx.violation('UB:product', f'UB is not U*B (numbers in base units, or unit): {d}', {'case': d, 'group': g})
                 found.append(d)
 
 
@@ -428,6 +589,61 @@ def invariance_checks(ctx, rng, n, found):
     return n_checks
 
 
+class _Collect:
+    """stands in for ctx: collects the violations of one group instead of recording them"""
+    def __init__(self):
+        self.items = []
+
+    def violation(self, key, what, replay_obj, found_input=True):
+        self.items.append((key, what, replay_obj))
+
+
+def keys_of(groups, res, only_id=None):
+    c = _Collect()
+    for g, r in zip(groups, res['groups']):
+        if only_id is None or g['id'] == only_id:
+            statement_checks(c, [g], {'groups': [r]}, [])
+    return {k for k, _, _ in c.items}
+
+
+def history_checks(ctx, order, by_hist, res_groups, found):
+    """the property statement on every step of every call history; a failing step is re-run (a) alone in a fresh process
+    and (b) as the end of its own history in a fresh process, so that the report says whether the failure depends on
+    the calls made before and carries the shortest sequence that reproduces it"""
+    seen, indep = set(), {}
+    n_steps = 0
+    for i, (g, r) in enumerate(zip(order, res_groups)):
+        if 'operands' not in r:
+            continue
+        n_steps += 1
+        c = _Collect()
+        f = []
+        statement_checks(c, [g], {'groups': [r]}, f)
+        for (key, what, obj), d in zip(c.items, f + [None] * len(c.items)):
+            # one report per key and kind; a key seen to fail on its own is examined on up to 3 further steps, so that a
+            # history-dependent failure of the same class is not hidden behind a history-independent one
+            if key in seen or indep.get(key, 0) >= 4:
+                continue
+            found.append(d if d is not None else obj)
+            alone = ctx.run_impl('c08_impl.py', {'groups': [g]})
+            if key in keys_of([g], alone):
+                indep[key] = indep.get(key, 0) + 1
+                ctx.violation(key, what, obj)           # fails on its own: not a matter of history
+                continue
+            seen.add(key)
+            seq = by_hist[g['hist']][:g['step'] + 1]
+            if key not in keys_of(seq, ctx.run_impl('c08_impl.py', {'groups': seq}), only_id=g['id']):
+                seq = order[:i + 1]                     # needs the calls of the interleaved history as well
+            prev = seq[-2] if len(seq) > 1 else None
+            ctx.violation('history:' + key,
+                          f'the result depends on the calls made before it in the same process: step {g["step"]} of call history {g["hist"]} '
+                          f'(same numbers as the earlier steps; this step changed {g["changed"]}; configuration {g["config"]}) violates the '
+                          f'property although the same call made first in a fresh process satisfies it. {what}',
+                          {'case': obj.get('case'), 'history': seq, 'failing_step': len(seq) - 1,
+                           'previous_step_config': prev and prev.get('config')})
+    return n_steps
+
+
 HEADER = ('From Coq Require Import QArith ZArith String List.\n'
           'From Verif.Sem Require Import Field Val QInst Corr.\nFrom Run Require Import Corr.\n'
           'Import ListNotations.\nOpen Scope string_scope.\n'
@@ -438,7 +654,12 @@ def correspondence(ctx):
     rng = random.Random(ctx.seed)
     quick = ctx.tier == 'quick'
     groups = gen_groups(rng, 60 if quick else 700)
-    res = ctx.run_impl('c08_impl.py', {'groups': groups})
+    # call histories, executed in the same process AFTER the independent groups (their ids start at HIST_ID0)
+    hrng = random.Random(ctx.seed * 7919 + 5)
+    order, by_hist = gen_histories(hrng, 8 if quick else 60, 7 if quick else 10)
+    res = ctx.run_impl('c08_impl.py', {'groups': groups + order})
+    hres = res['groups'][len(groups):]
+    res = dict(res, groups=res['groups'][:len(groups)])
     terms, descs = [], []
     mutated = 0
     for g, r in zip(groups, res['groups']):
@@ -449,15 +670,31 @@ def correspondence(ctx):
         for t, d in cases_of(g, r):
             terms.append(t)
             descs.append(d)
+    n_plain = len(terms)
+    for g, r in zip(order, hres):
+        if 'build_error' in r:
+            ctx.note('harness could not build a history step: ' + r['build_error'])
+            continue
+        mutated += not r.get('inputs_unchanged', True)
+        # first pixel of every step against the (stateless) model; all pixels against the statement in history_checks
+        for t, d in cases_of(g, r, pixels=None if not quick else [0], norm=False):
+            terms.append(t)
+            descs.append(dict(d, history=g['hist'], step=g['step'], changed=g['changed'], config=g['config']))
     fails, errors = ctx.coq_eval_shards(HEADER, terms, lambda k: 'Eval vm_compute in (report (map (check H MN) cases)).\n', shard=60)
     for name, e in errors:
         ctx.violation('corr-shard-error', f'correspondence shard {name} did not evaluate: {e[:300]}', {'shard': name, 'error': e}, found_input=False)
     for i, why in sorted(fails.items()):
         d = descs[i]
+        rp = {'case': d, 'reason': why}
+        if 'history' in d:
+            rp['history'] = by_hist[d['history']][:d['step'] + 1]
+        # same key for a step of a history as for an independent group: the model is stateless, so whether the disagreement
+        # depends on the earlier calls is decided by history_checks (keys 'history:...'), which re-runs the step alone
         ctx.violation(f'{d["kernel"].split(" ")[0]}:{why.split(":")[0]}',
-                      f'{d["kernel"]}: implementation differs from the model / defining algebra ({why}) on {d}', {'case': d, 'reason': why})
+                      f'{d["kernel"]}: implementation differs from the model / defining algebra ({why}) on {d}', rp)
     found = []
     statement_checks(ctx, groups, res, found)
+    n_hist_steps = history_checks(ctx, order, by_hist, hres, found)
     n_inv = invariance_checks(ctx, rng, 8 if quick else 120, found)
     if mutated:
         ctx.note(f'{mutated} groups had an operand modified by a call (C09 covers this)')
@@ -465,6 +702,10 @@ def correspondence(ctx):
     for d in descs:
         kinds[d['kernel']] = kinds.get(d['kernel'], 0) + 1
     kaps = sorted({g['kappa_target'] for g in groups})
+    axes = {}
+    for g in order:
+        for a in g['changed']:
+            axes[a] = axes.get(a, 0) + 1
     ctx.coverage.update({
         'evaluations': len(terms) + n_inv,
         'distinct_nontrivial': len({repr(sorted((k, repr(v)) for k, v in d.items() if k != 'impl')) for d in descs if not isinstance(d['impl'], str)}),
@@ -472,21 +713,34 @@ def correspondence(ctx):
                 'beams per pixel at uniform and near-degenerate angles ({0,pi/2,pi} +- {0,1e-12..1e-3}), beams in m/mm with lengths 1e-3..1e3; '
                 'R and U from exact rational unit quaternions (as rotation3 or as 3x3 linear_transform; R scalar or per-pixel), '
                 'B = diag*(I+N) with condition numbers 1..1e6 in 1/angstrom; hkl of the computed Q vectors or of random Q; '
-                'non-trivial = a finite result was produced; plus rescaling (2^k, 3, 0.1) and rotation (incl. improper) of the beams',
-        'samples': descs[:2] + descs[len(descs) // 2:len(descs) // 2 + 2] + descs[-1:],
+                'non-trivial = a finite result was produced; plus rescaling (2^k, 3, 0.1) and rotation (incl. improper) of the beams; '
+                'plus CALL HISTORIES in the same process: the same numbers re-used step by step with another unit (UB dimensionless, 1/angstrom, '
+                '1/nm; wavelength angstrom, nm; beams m, mm; explicit Q 1/angstrom, 1/nm), dtype (float64/float32/int64), shape (scalar / '
+                'per-pixel wavelength and R, 2 or 3 pixels), storage (rotation3 / matrix) and Q source; consecutive steps differ in one '
+                '(15%: two) axes, 15% of the steps repeat an earlier step exactly, half of the histories run interleaved in pairs; all five '
+                'kernels are called on every step and every step is compared with the model (first pixel) and with the statement (all pixels, '
+                'value and unit)',
+        'samples': descs[:2] + descs[n_plain // 2:n_plain // 2 + 2] + descs[n_plain:n_plain + 1] + descs[-1:],
         'per_kernel': kinds, 'kappa_targets': kaps, 'invariance_checks': n_inv,
+        'call_histories': {'histories': len(by_hist), 'steps': n_hist_steps, 'coq_cases': len(terms) - n_plain, 'axis_changes': axes,
+                           'exact_repeats': sum(1 for g in order if g['changed'] == ['repeat-of-earlier-step'])},
         'disagreements': len(fails), 'tolerance': {'Q_abs_in_units_of_2pi_over_lambda': 2e-15, 'norm_vs_scalar_Q': 1e-13, 'hkl': '64*kappa_inf*2^-53'},
         'scipp_version': res.get('scipp'),
     })
 
 
 def search(ctx, broken):
-    """an obligation broke: evaluate the property's own statement on the implementation (exact rational arithmetic on its outputs)"""
+    """an obligation broke: evaluate the property's own statement on the implementation (exact rational arithmetic on its outputs),
+    on independent random groups AND on call histories (state kept between calls only shows in a sequence of calls)"""
     rng = random.Random(ctx.seed + 11)
-    groups = gen_groups(rng, 40)
-    res = ctx.run_impl('c08_impl.py', {'groups': groups})
     found = []
+    order, by_hist = gen_histories(rng, 24, 10)
+    groups = gen_groups(rng, 40)
+    res = ctx.run_impl('c08_impl.py', {'groups': groups + order})
+    hres = res['groups'][len(groups):]
+    res = dict(res, groups=res['groups'][:len(groups)])
     statement_checks(ctx, groups, res, found)
+    history_checks(ctx, order, by_hist, hres, found)
     invariance_checks(ctx, rng, 8, found)
     return found
 
@@ -497,6 +751,31 @@ def replay(ctx, obj):
     rp = obj.get('replay', {})
     case = rp.get('case') or rp
     print(json.dumps({k: obj.get(k) for k in ('property', 'key', 'what')}, indent=1, default=str)[:3000])
+    if rp.get('history'):
+        seq = rp['history']
+        print(f'call history of {len(seq)} steps in one process (failing step recorded: {rp.get("failing_step", len(seq) - 1)})')
+        res = ctx.run_impl('c08_impl.py', {'groups': seq})
+
+        class PH:
+            @staticmethod
+            def violation(key, what, replay_obj, found_input=True):
+                print('  STILL VIOLATED:', key, '::', what[:400])
+        n_bad = 0
+        for g, r in zip(seq, res['groups']):
+            print(f'step {g.get("step")} (group {g["id"]}, changed {g.get("changed")}): config {g.get("config")}')
+            for key in ('Qvec', 'UB', 'hkl'):
+                if key in r:
+                    v = r[key]
+                    print('  ', key, '->', 'raises ' + v['error'] if 'error' in v else (kcorr.fmt(v['values'][0]), (v.get('unit') or {}).get('name')))
+            f = []
+            statement_checks(PH, [g], {'groups': [r]}, f)
+            n_bad += len(f)
+        if not n_bad:
+            print('the defining relations hold on every step of this history')
+        else:
+            alone = ctx.run_impl('c08_impl.py', {'groups': [seq[-1]]})
+            print('last step alone in a fresh process:', sorted(keys_of([seq[-1]], alone)) or 'satisfies the property')
+        return 0
     if rp.get('group'):
         g = rp['group']
     elif 'scattered_beam' in case and isinstance(case.get('wavelength'), dict):
